@@ -14,6 +14,7 @@
 From Coq Require Import List String NArith ZArith Bool Lia.
 From Coq.Strings Require Import Byte.
 From SP Require Import Bytes Consts Params Msgpack Crypto Errors Nonce Packets Verify Decrypt GoLang GoLang2 GoAst GoAstProofs GoAstProofs2.
+From SP Require Import GoAstRecv.
 Import ListNotations.
 Local Open Scope string_scope.
 
